@@ -102,7 +102,7 @@ func checkC13() *checkDef {
 }
 
 func allChecks() []*checkDef {
-	return []*checkDef{checkC01(), checkC03(), checkC04(), checkC05(), checkC06(), checkC07(), checkC08(), checkC09(), checkC10(), checkC11(), checkC12(), checkC13(), checkC14(), checkC15(), checkC19()}
+	return []*checkDef{checkC01(), checkC02(), checkC03(), checkC04(), checkC05(), checkC06(), checkC07(), checkC08(), checkC09(), checkC10(), checkC11(), checkC12(), checkC13(), checkC14(), checkC15(), checkC19()}
 }
 
 func freshRuns(tier string) []run {
@@ -141,6 +141,25 @@ func checkC04() *checkDef {
 		Rule:        "all (policy, header class, gap pattern) tuples and all (method, status) pairs; distinct by tuple; non-trivial = distinct contact pattern",
 		Assumptions: seqAssumptions,
 		Runs:        freshRuns,
+	}
+}
+
+func checkC02() *checkDef {
+	return &checkDef{
+		ID: "C02", Title: "Distinct resources never share a cache entry", Level: "exploration",
+		Category: "exploration",
+		LevelText: "Bounded-exhaustive input enumeration: every request target from {GET,HEAD} x 4 hosts x all paths of up to 3 segments over {a,b,.,..,empty,a|b,a%7Cb,a%2Fb,%61,A} with and without trailing slash x 8 query forms, parsed from the wire by http.ReadRequest, keyed by the real MakeFromRequest; ALL pairs are judged (keys are bucketed, colliding buckets compared pairwise) against the relation B2 written from the property text: equal up to host case and dot-segment removal must share; differing in anything beyond duplicate slashes / unreserved percent-decoding must not. Violating pair classes are confirmed end to end through the proxy (store A, request B, decode whose body came back).",
+		LevelNote: "Trusted: the reference relation (RFC 3986 5.2.4 remove_dot_segments on the path as sent), http.ReadRequest as the producer of what the server sees.",
+		Technique: "bounded-exhaustive enumeration of request-target pairs against a reference identity relation, with end-to-end confirmation through the implementation",
+		DesignRef: "DESIGN.md section 4 C02, appendix B2",
+		Rule:        "all targets from the component product and all pairs among them; distinct by target; non-trivial = targets falling into distinct keys / must-share groups",
+		Assumptions: seqAssumptions,
+		Runs: func(tier string) []run {
+			return []run{
+				{Pkg: "./cache", Scenario: "cache/keys", Params: map[string]any{"max_segs": 3}, Workers: 1},
+				{Pkg: "./proxy", Scenario: "proxy/keys", Params: map[string]any{}, Workers: 1},
+			}
+		},
 	}
 }
 
